@@ -73,6 +73,8 @@ type Contract struct {
 	Terminates bool
 	Bytes      bool // model bulk copies (append/copy of slices) with quantified content axioms
 	After      []*AfterSpec
+	Calls      []string // function-typed parameters the callee may invoke (at most once)
+	CallsNonNil []string // ... with non-nil arguments
 	Uses       []string // axioms assumed at entry
 	Splits     []Clause // case split: every obligation is discharged once per case; the cases must cover the precondition
 }
@@ -112,7 +114,14 @@ type GuardedBy struct {
 	Props   []string
 }
 
+type GhostMap struct {
+	Name    string
+	Type    string
+	PkgPath string
+}
+
 type ContractSet struct {
+	Ghosts  map[string]*GhostMap
 	Funcs   map[string]*Contract // by Full name
 	Preds   map[string]*Pred     // by pkgpath + "." + name, and by bare name fallback
 	UFuncs  map[string]*UFunc
@@ -122,14 +131,14 @@ type ContractSet struct {
 }
 
 func newContractSet() *ContractSet {
-	return &ContractSet{Funcs: map[string]*Contract{}, Preds: map[string]*Pred{}, UFuncs: map[string]*UFunc{}}
+	return &ContractSet{Ghosts: map[string]*GhostMap{}, Funcs: map[string]*Contract{}, Preds: map[string]*Pred{}, UFuncs: map[string]*UFunc{}}
 }
 
 var labelRe = regexp.MustCompile(`^\[([A-Za-z0-9_.:\-]+)\]\s*`)
 
 var clauseKW = map[string]bool{"props": true, "requires": true, "ensures": true, "assigns": true, "canary": true,
 	"loop": true, "decreases": true, "nooverflow": true, "assumed": true, "inline": true, "let": true, "panics_ok": true,
-	"params": true, "ghost": true, "terminates": true, "bytes": true, "split": true, "uses": true, "after": true}
+	"params": true, "ghost": true, "terminates": true, "bytes": true, "split": true, "uses": true, "after": true, "calls": true}
 
 func fullName(pkgPath, key string) string {
 	if strings.Contains(key, "/") || pkgPath == "" {
@@ -273,6 +282,18 @@ func (cs *ContractSet) parseContractFile(path, pkgPath string) error {
 			}
 			cs.UFuncs[pkgPath+"."+u.Name] = u
 			continue
+		case "ghostmap":
+			// ghostmap name ValueType : ghost state, a map from references to values (name(x) in specs,
+			// `assigns name(x)` in frames); it exists only in specifications
+			if err := flush(); err != nil {
+				return err
+			}
+			fs := strings.Fields(rest)
+			if len(fs) < 2 {
+				return fmt.Errorf("%s:%d: ghostmap needs a name and a value type", path, ln)
+			}
+			cs.Ghosts[fs[0]] = &GhostMap{Name: fs[0], Type: strings.Join(fs[1:], " "), PkgPath: pkgPath}
+			continue
 		case "guarded_by":
 			// guarded_by Struct.Mutex: field [props C11]
 			if err := flush(); err != nil {
@@ -386,6 +407,15 @@ func (c *Contract) addClause(kw, text string, line int) error {
 			as.Ensures = append(as.Ensures, cl)
 		default:
 			return fmt.Errorf("after: want assigns or ensures")
+		}
+	case "calls":
+		fs := strings.Fields(text)
+		if len(fs) == 0 {
+			return fmt.Errorf("calls needs a parameter name")
+		}
+		c.Calls = append(c.Calls, fs[0])
+		if len(fs) > 1 && fs[1] == "nonnil" {
+			c.CallsNonNil = append(c.CallsNonNil, fs[0])
 		}
 	case "uses":
 		c.Uses = append(c.Uses, strings.Fields(strings.ReplaceAll(text, ",", " "))...)
